@@ -80,6 +80,24 @@ theorem cache_capacities :
     cacheCaps = [("topBlocks", "100"), ("futureBlocks", "100"), ("verifiedBlocks", toString verifiedCap),
                  ("verifiedBodyCache", "10")] ∧ toString topBlocksCacheSize = "100" := by decide
 
+/-- The fork-configuration reads on the add / remove / repair path are exactly these: Proposal008 (the
+    executed-transaction check, the model's `p008` flag, sessions run on both sides of it) and 020/023 in
+    `verifyBlock`/`checkStates` (tx-root validation and the `setHash` rewrite, pinned on by the harness). A new
+    `IsProposalNNN` branch on the path breaks this fact. -/
+theorem flag_reads : flagReads =
+    [("checkStates", "IsProposal020"), ("checkStates", "IsProposal023"),
+     ("verifyBlock", "IsProposal008"), ("verifyBlock", "IsProposal020")] := by decide
+
+/-- No function on the path assigns package-level state (all state is in the `blockChain` object, its stores
+    and the pool): results cannot depend on process-local history through a package variable. -/
+theorem no_global_writes : globalWrites = [] := by decide
+
+/-- The sync fork switch drives the chain only through these calls (the model's `forkSwitch`:
+    `removeFromCommonAncestor`, then per block `consensusVerify` + `addBlockOnChain` = `addBlock`). -/
+theorem fork_switch_calls :
+    triggerOnChainCalls = ["QueryBlockHeaderByHeight", "nextPvGreatThanFork", "removeFromCommonAncestor"] ∧
+    tryAddBlockOnChainCalls = ["consensusVerify", "addBlockOnChain"] := by decide
+
 def allowedCallers (callee : String) : List String :=
   if callee = "blockChain.insertBlock" then ["blockChain.addBlockOnChain"]
   else if callee = "blockChain.remove" then ["blockChain.removeFromCommonAncestor", "blockChain.ensureChainConsistency"]
